@@ -1045,6 +1045,13 @@ class World:
                     mtime = math.floor(mtime / fs.gran + 1e-9) * fs.gran
             else:
                 mtime = None
+            skew = 0.0 if op.get('noskew') else self.cfg.get('src_skew', 0.0)
+            if skew and mtime is None:
+                # the sources live on another file system (server) whose clock is off by `skew`
+                import math
+                mtime = fs.stamp() + skew
+                if fs.gran:
+                    mtime = math.floor(mtime / fs.gran + 1e-9) * fs.gran
             n = fs.h_write(self._real_file(path), data, mtime=mtime,
                            atomic=(op.get('how', 'atomic') == 'atomic' and k == 'edit'))
             self._record_version(f, n.data, n.mtime)
@@ -1053,7 +1060,7 @@ class World:
             self.now += op.get('dt', 0.0)
             n = fs.h_node(self.files[f])
             if n is not None:
-                n.mtime = fs.stamp()
+                n.mtime = fs.stamp() + self.cfg.get('src_skew', 0.0)
                 self._record_version(f, n.data, n.mtime)
         elif k == 'rmfile':
             f = op['f'] % len(self.files)
